@@ -296,6 +296,31 @@ func scenarios(o *common.Opts) []*callsim.Scenario {
 				Servers: []callsim.ServerSpec{{Kind: "normal"}}, Calls: calls, GapMs: 20, CapMs: 6000 + 400*rounds})
 		}
 	}
+	// keep-alive: doKeepAlive takes and releases a queueLen slot of the proxy on every tick. With a small
+	// ObjQueueMax and calls that keep the queue full over several ticks, the proxy's counter must be back at 0
+	// after the calls (also a few ticks later) and a burst of ObjQueueMax calls must be admitted.
+	for _, ka := range []string{"push", "interval"} {
+		const qmax = 2
+		cl := callsim.ClientConf{ObjQueueMax: qmax, WriteTimeoutMs: -1, DialTimeoutMs: 400, ProxyTimeoutMs: 2500}
+		hold := 400
+		if ka == "push" {
+			cl.PushCallback, cl.IdleTimeoutMs = true, 80 // autoKeepAlive ticks every 40 ms
+		} else {
+			cl.KeepAliveIntervalMs = 1000 // checkStatus (every second) calls doKeepAlive
+			hold = 1500
+		}
+		calls := []callsim.CallSpec{{Wave: 0, Timeout: "proxy", MustOK: true}}
+		for c := 0; c < qmax+2; c++ { // qmax+1 are admitted (queueLen = qmax+1 > ObjQueueMax), one is refused
+			calls = append(calls, callsim.CallSpec{Wave: 1, Timeout: "proxy", DelayMs: 2 * c})
+		}
+		for c := 0; c < qmax; c++ {
+			calls = append(calls, callsim.CallSpec{Wave: 2, Timeout: "proxy", MustOK: true})
+		}
+		add(&callsim.Scenario{Name: "keepalive-" + ka, Class: "keepalive", Client: cl,
+			// the keep-alive pings are requests too, so ordinal rules would shift: the calls of wave 1 (caller
+			// tags 1..qmax+2) are recognised by their tag and answered after `hold` ms
+			Servers: []callsim.ServerSpec{{Kind: "normal", HoldFromTag: 1, HoldToTag: qmax + 2, HoldMs: hold}}, Calls: calls, GapMs: 130, CapMs: 9000})
+	}
 	// callers queue up behind the dial lock of an endpoint that does not answer the dial
 	{
 		cl := callsim.ClientConf{WriteTimeoutMs: -1, DialTimeoutMs: 500, ProxyTimeoutMs: 200}
